@@ -96,8 +96,9 @@ fn run(rig: &mut Rig, c: &[i64]) -> Vec<i64> {
 fn sig(rng: &mut Rng, out: &mut Vec<i64>) {
     let t = *rng.pick(&[0x43u8, 0x20, 0x45, 0x44, 0x46, 0x16, 0x43, 0x46]);
     let p = crate::c13::valid_bytes(t, rng);
-    // canonical form: what the daemon's own encoder produces for the decoded object
-    let p2 = match object_of(t, &p) { Some(o) => { let mut v = object_packet_raw(&o); v.drain(..0); v } None => p.clone() };
+    // the payload as generated (valid by construction); the model canonicalises it with ITS codec, so the
+    // expectation never depends on the implementation's encoder
+    let p2 = p.clone();
     out.push(t as i64); out.push(p2.len() as i64); out.extend(p2.iter().map(|b| *b as i64));
 }
 
